@@ -63,9 +63,19 @@ int *freeloc; // freeloc[m] is position of m^th such independent base pair (star
 /* New random number code. */
 unsigned short xsubi[3];
 
+FILE *verif_trace=NULL;  // verification hook: only ever opened when PEPPERCOMPILER_VERIF is set
+
 void init_rand(void)
 {
     FILE *urandom;
+    if (getenv("PEPPERCOMPILER_VERIF")!=NULL && getenv("PEPPERCOMPILER_VERIF_TRACE")!=NULL)
+        verif_trace = fopen(getenv("PEPPERCOMPILER_VERIF_TRACE"),"w");
+    if (getenv("PEPPERCOMPILER_VERIF")!=NULL && getenv("PEPPERCOMPILER_VERIF_SEED")!=NULL) {
+        // verification hook: replayable random stream instead of /dev/urandom
+        unsigned long long s = strtoull(getenv("PEPPERCOMPILER_VERIF_SEED"),NULL,10);
+        xsubi[0] = s & 0xffff; xsubi[1] = (s>>16) & 0xffff; xsubi[2] = (s>>32) & 0xffff;
+        return;
+    }
     urandom = fopen ("/dev/urandom", "r");
     setvbuf (urandom, NULL, _IONBF, 0); 
     xsubi[0] = (fgetc (urandom) << 8) | fgetc (urandom);
@@ -616,6 +626,7 @@ void mutate(char *S, char *St, int *wc, int *eq)
   do {
     S[i] = randbasec(St[i]);   
   } while (oldc == S[i]);
+  if (verif_trace) fprintf(verif_trace,"m %d %c\n",i,S[i]);
   constrain_single_fast(S,wc,eq,i);
 }
 // --------------------------------------------------------------------------
@@ -1181,6 +1192,7 @@ int main(int argc, char *argv[])
   if (watch && (bmax>0)) printf(" (bored=%d,bmax=%d)", bored, bmax);
   if (watch) printf("\n");
   
+  if (verif_trace) fprintf(verif_trace,"p %d %d %d %d %d\nc %s\n",N,Nfree,bmax,imax,(int)tmax,testS);
   time(&t_start);  time(&t_now);
   while ( (tmax==0 || t_start+tmax>=t_now) && (imax==0 || steps<imax) && (bmax==0 || bored<bmax) && Nfree>0) { 
    steps++; 
@@ -1190,6 +1202,7 @@ int main(int argc, char *argv[])
    mutate(testS,testSt,testwc,testeq);
    // if (bored > bmax/2) mutate(testS,testSt,testwc,testeq); // get desperate and start mutating two at a time (doesn't seem to work)
    new_score = score_all(testS,testwc,testeq); 
+   int verif_cmp = (new_score<old_score)?-1:((new_score==old_score)?0:1);  // verification hook only
    if (new_score <= old_score) {
      if (watch) printf("%8d steps, %8d seconds : score = %18.10f", steps, (int)(t_now-t_start), new_score);
      if (watch && (imax>0)) printf(" (imax=%d)", imax);
@@ -1203,6 +1216,7 @@ int main(int argc, char *argv[])
    } else {
      for (i=0; i<N; i++) testS[i]=oldS[i]; bored++;
    }
+   if (verif_trace) fprintf(verif_trace,"s %d %d %d %s\n",steps,verif_cmp,bored,testS);
    time(&t_now);
   }  
   if (watch) printf("%8d steps, %8d seconds : score = %18.10f FINAL\n", 
@@ -1219,6 +1233,7 @@ int main(int argc, char *argv[])
  if (!quiet) test_evals(testS,testwc,testeq);
 
 
+ if (verif_trace) { fprintf(verif_trace,"f %s\n",testS); fclose(verif_trace); }
  if (S_filename==NULL)
    printf("%s\n",testS);
  else {
